@@ -106,7 +106,9 @@ def run(module: str,
     cwd = cwd or SPEC
     meta = workdir("meta")
     # java.io.tmpdir: TLC unpacks its module jars into a fresh temporary directory on every start and leaves it behind
-    jopts = [f"-Xmx{heap}", "-XX:+UseParallelGC", f"-DTLA-Library={SPEC}", f"-Djava.io.tmpdir={meta}"]
+    # -Xss: the recursive operators of the codec reference go deep; with the default thread stack a StackOverflowError came and
+    # went with the JIT's frame sizes (three thorough runs failed once and passed on the next start)
+    jopts = [f"-Xmx{heap}", "-Xss64m", "-XX:+UseParallelGC", f"-DTLA-Library={SPEC}", f"-Djava.io.tmpdir={meta}"]
     if dfs:
         jopts.append("-Dtlc2.tool.queue.IStateQueue=StateDeque")
     cmd = ["java", *jopts, "-cp", JAR, "tlc2.TLC", "-workers", str(workers), "-metadir", str(meta),
